@@ -448,7 +448,7 @@ func c20(p *core.Program, r *core.Report) {
 		}
 		// (a) store-const
 		okConst, nst := true, 0
-		for _, f := range []*ssa.Function{fn, dw} {
+		for _, f := range pkgFuncs(p, "xy") {
 			for _, b := range f.Blocks {
 				for _, in := range b.Instrs {
 					if st, ok := in.(*ssa.Store); ok {
@@ -490,8 +490,12 @@ func c20(p *core.Program, r *core.Report) {
 						first = true
 					}
 					if bo, isB := ia.Index.(*ssa.BinOp); isB && bo.Op == token.SUB {
-						if lc, isL := bo.X.(*ssa.Call); isL && eng.BuiltinName(lc) == "len" && lc.Call.Args[0] == ia.X {
-							if n, isC := eng.ConstInt(bo.Y); isC && n == 1 {
+						if n, isC := eng.ConstInt(bo.Y); isC && n == 1 {
+							// len(mask) - 1, or size - 1 where mask = make([]byte, size)
+							if lx, isL := eng.LenOf(bo.X); isL && eng.Equiv(lx, ia.X) {
+								last = true
+							}
+							if mk, isMk := ia.X.(*ssa.MakeSlice); isMk && (mk.Len == bo.X || eng.Equiv(mk.Len, bo.X)) {
 								last = true
 							}
 						}
@@ -512,11 +516,30 @@ func c20(p *core.Program, r *core.Report) {
 				if len(vals) != 1 {
 					continue
 				}
-				// the appended value is the range index: phi(-1+1...) in go/ssa's range lowering: rangeindex
-				if phi, ok := vals[0].(*ssa.BinOp); ok && phi.Op == token.ADD {
-					if n, isC := eng.ConstInt(phi.Y); isC && n == 1 {
-						if ph, isPhi := phi.X.(*ssa.Phi); isPhi && ph.Comment == "rangeindex" {
+				// the appended value is an ascending counter: a +1 induction variable starting at 0, or (go/ssa's range
+				// lowering) the incremented value of one starting at -1
+				for _, l := range eng.Loops(fn) {
+					ivs := l.InductionVars()
+					initOf := func(ph *ssa.Phi) (int64, bool) {
+						for i, e := range ph.Edges {
+							if !l.Body[l.Header.Preds[i]] {
+								return eng.ConstInt(e)
+							}
+						}
+						return 0, false
+					}
+					switch x := vals[0].(type) {
+					case *ssa.Phi:
+						if k, ok := initOf(x); ok && ivs[x] == 1 && k == 0 {
 							asc = true
+						}
+					case *ssa.BinOp:
+						if ph, isPhi := x.X.(*ssa.Phi); isPhi && x.Op == token.ADD && ivs[ph] == 1 {
+							if n, isC := eng.ConstInt(x.Y); isC && n == 1 {
+								if k, ok := initOf(ph); ok && k == -1 {
+									asc = true
+								}
+							}
 						}
 					}
 				}
